@@ -30,8 +30,8 @@ RULE = ("cases = reaction updates on prepared states (every (state, reaction) pa
 
 
 CRO_DESCRIBE = {
-    "state": lambda r: [r.get("pe2"), r.get("nm"), r.get("bf"), r.get("kef")],
-    "act": lambda r: {k: r.get(k) for k in ("op", "i", "j", "p1", "p2", "pe", "ke", "buffer", "seed", "lr")},
+    "state": lambda r: [r.get("pe2"), r.get("sol2"), r.get("nm"), r.get("bf"), r.get("kef")],
+    "act": lambda r: {k: r.get(k) for k in ("op", "i", "j", "p1", "p2", "pe", "ke", "sol", "below", "buffer", "seed", "lr", "unit", "off")},
     "is_reset": lambda r: False,
     "nontrivial": lambda r, before, after: r.get("res") != "unchanged",
 }
@@ -58,8 +58,16 @@ def prepared(ctx):
     ops = {c["act"]["op"] for c in cases}
     if ops != {"init", "scoped_init", "on_wall", "decompose", "intermolecular", "synthesis"}:
         raise vlib.ToolError("vacuous export: reactions %s" % sorted(ops))
-    # (quick: every third pair of the 2-molecule model; thorough: every fourth pair of the 3-molecule model)
-    cases = cases[ctx.seed % 3::3] if q else cases[ctx.seed % 4::4]
+    # the export has to offer what the binding is about: populations underneath, and two individuals holding the same
+    # solution with different objective values one of which reacts
+    def noisy_twin(c):
+        f, a = c["from"], c["act"]
+        return a["i"] > 0 and any(k + 1 != a["i"] and f["sol"][k] == f["sol"][a["i"] - 1] and f["pe"][k] != f["pe"][a["i"] - 1]
+                                  for k in range(len(f["pe"])))
+    if not any(c["from"]["below"] > 0 for c in cases) or not any(noisy_twin(c) for c in cases):
+        raise vlib.ToolError("vacuous export: no populations underneath / no equal solutions with different objective values")
+    # (quick: every eighth pair of the 2-molecule model; thorough: every tenth pair of the 3-molecule model)
+    cases = cases[ctx.seed % 8::8] if q else cases[ctx.seed % 10::10]
     cpath = os.path.join(ctx.work, "cro.cases.ndjson")
     with open(cpath, "w") as f:
         for c in cases:
@@ -89,8 +97,9 @@ def replay(ctx, rp):
         a = rp["first_unmatched"]
         cpath = os.path.join(ctx.work, "replay.cases.ndjson")
         with open(cpath, "w") as f:
-            f.write(json.dumps({"from": {"pe": a["pe"], "ke": a["ke"], "buffer": a["buffer"]},
-                                "act": {k: a[k] for k in ("op", "i", "j", "p1", "p2")}}) + "\n")
+            f.write(json.dumps({"from": {"pe": a["pe"], "ke": a["ke"], "sol": a["sol"], "buffer": a["buffer"], "below": a["below"]},
+                                "act": {k: a[k] for k in ("op", "i", "j", "p1", "p2")},
+                                "unit": a["unit"], "off": a["off"], "lr": a["lr"]}) + "\n")
         tr = os.path.join(ctx.work, "replay.trace.ndjson")
         ctx.harness("cro", "replay", **{"in": cpath, "out": tr, "seed": a["seed"], "seeds": 1})
         ctx.validate("Trace_Cro", cfg_trace_cro(99), tr, "replay", CRO_DESCRIBE, rp["meta"])
